@@ -509,6 +509,13 @@ func (db *MultiBucketBackend) PutObject(
 		}
 	}
 
+	// Unlink the previous object instead of truncating it in place: a GET that is
+	// still streaming it (the lock is not held while a response is sent) keeps
+	// reading its own, now unlinked, file rather than a mixture of old and new.
+	if err := db.bucketFs.Remove(objectFilePath); err != nil && !noSuchFile(err) {
+		return result, err
+	}
+
 	f, err := db.bucketFs.Create(objectFilePath)
 	if err != nil {
 		return result, err
